@@ -430,8 +430,12 @@ func withWorkE(c kase, rng *vk.SplitMix, minL int, emptyProblem bool, call func(
 	case 1:
 		lwork = query
 	case 2:
-		lwork = minL + (query-minL)/2
-		if lwork == minL && query > minL {
+		// uniform in (minL, query): internal path-selection thresholds on lwork
+		// (Dgesvd has a dozen) are hit with probability ~ width/range
+		lwork = minL
+		if query > minL+1 {
+			lwork = minL + 1 + rng.Intn(query-minL-1)
+		} else if query > minL {
 			lwork = minL + 1
 		}
 	default:
